@@ -195,7 +195,7 @@ func Plan(tier string) *harness.Plan {
 		// plus the one-edit seed neighbourhoods on their token words (a superset of the quick space), under the larger
 		// configuration list. (Every 4-node pattern was tried and dropped: a quarter of all (pattern, haystack) pairs
 		// hits one of the open engine-contract findings of §10.4, which made the known-finding set 4 million cases.)
-		t.SK, t.SeedEmbFirst, t.Budget = 1, len(space.Seeds), 25*time.Minute
+		t.SK, t.LateSKDelta, t.SeedEmbFirst, t.Budget = 1, 1, len(space.Seeds), 25*time.Minute
 	}
 	sp := bx.NewSpace(t)
 	cfgs := lazyConfigs(thorough)
